@@ -10,6 +10,6 @@ func F() int {
 	var a interface{ A() *int } = S{}
 	var b interface{ B() *int } = S{}
 	r := *a.A()
-	r += *b.B() //KNOWN:F41-b4
+	r += *b.B() //REPORT
 	return r
 }
